@@ -278,7 +278,22 @@ func walkOne(w *tr.Writer, tid *int, src []byte, seed int64, kinds map[string]bo
 			return n.parent > 0 && len(n.kids) > 0 && t.nodes[n.parent-1].kids[0] != id
 		}},
 	}
-	for _, p := range policies {
+	// a very deep tree (more levels than the parser's nesting limits count) is walked under the first policy only: validating
+	// its traces costs minutes
+	deepest := 0
+	depth := make([]int, len(t.nodes)+1)
+	for i, n := range t.nodes {
+		if n.parent > 0 && n.parent <= i {
+			depth[i+1] = depth[n.parent] + 1
+		}
+		if depth[i+1] > deepest {
+			deepest = depth[i+1]
+		}
+	}
+	for pi, p := range policies {
+		if deepest > 1000 && pi > 0 {
+			break
+		}
 		*tid++
 		w.Begin(*tid)
 		w.Ev("Open", tr.E{"src": tr.Ints(src), "policy": p.name, "par": par, "req": req, "nodes": len(t.nodes)})
@@ -330,6 +345,7 @@ func Record(args []string) {
 	nh := fs.Int("harvest", 400, "harvested literals to try")
 	ncomb := fs.Int("combos", 300, "random combinations of snippets to try")
 	extra := fs.String("extra", "", "optional ndjson {input:[bytes]} of further programs (e.g. from the grammar generators)")
+	deep := fs.Int("deep", 0, "also walk n nested calls f(f(...)): three tree levels each, so 700 of them are more levels than the parser's nesting limits count")
 	fs.Parse(args)
 	rng := rand.New(rand.NewSource(*seed))
 	w := tr.NewWriter(*out)
@@ -357,6 +373,9 @@ func Record(args []string) {
 	}
 	for _, s := range snippets {
 		try(s)
+	}
+	if *deep > 0 {
+		try(strings.Repeat("f(", *deep) + "a" + strings.Repeat(")", *deep))
 	}
 	lits := harvestJS(*repo)
 	rng.Shuffle(len(lits), func(i, j int) { lits[i], lits[j] = lits[j], lits[i] })
